@@ -136,7 +136,7 @@ def plan(c, out, trim=0):
 
 
 def evaluate(env, c):
-    d = env.driver("ts-asan")
+    d = env.driver(c.get("variant", "ts-asan"))
     out = d.out
     p = plan(c, out)
     if any(len(l) > 1022 for l in p["ini"].split(b"\n")):
@@ -307,7 +307,8 @@ def main():
                        "/dev/log is redirected to a harness socket by interposing connect(); the 'syslog' output is not built by default",
                        "with error_logging on only the presence of the faithful record is required"]
     nw, per = (4, 700) if ctx.quick else (16, 5000)
-    pbt.run(ctx, {"ts-asan": b}, strategy, evaluate, classify, nw, per, sample=sample, fixed_cases=FIXED)
+    pbt.run(ctx, {"ts-asan": b, "nts-asan": ctx.run.build("nts-asan")}, strategy, evaluate, classify, nw, per, sample=sample, fixed_cases=FIXED,
+            variants=["ts-asan", "ts-asan", "nts-asan"])
     ctx.finish()
 
 
